@@ -365,7 +365,10 @@ func init() {
 			"(begin-end and JSON-list ranges, literal or from variables) / task / call roles nested to depth <= 4, <= ~25 roles, " +
 			"enabled fields (literal spellings, {{ var }}, ==, !=, &&, ||, !) over defaults/vars/user vars/iteration variables with " +
 			"shadowing across levels, templated names, variables, constraints, bind/connect channels and hook traits, ~12% cases " +
-			"with a deliberate template error (unknown variable, non-integer bound, malformed list); every case is run under ALL 8 " +
+			"with a deliberate template error (unknown variable, non-integer bound, malformed list); plus a stream (1 in 6 cases, tag " +
+			"stream:nested) of iterators nested 2-3 deep inside iterator templates whose inner begin/end/range refers to the enclosing " +
+			"iteration variable(s) or to variables the generated child sets from them (each generated child must evaluate the inner " +
+			"range in its own stack; the same shapes also occur in the general stream); every case is run under ALL 8 " +
 			"settings of the three concurrency switches and the canonical dump of the whole tree is compared with the Lean model " +
 			"and across settings; non-trivial = >= 4 template roles and (an iterator or an enabled field with a {{ }} tag); distinct by input text",
 		Shrink:  shrinkCands,
